@@ -60,7 +60,7 @@ def _case(rng, lumped, alpha_kind=None):
     return case
 
 
-def gen(rng, tier):
+def _gen0(rng, tier):
     n = G.budget(350) if tier == 'quick' else 8000
     for _ in range(n):
         lumped = rng.random() < 0.4
@@ -68,6 +68,13 @@ def gen(rng, tier):
         if not lumped and rng.random() < 0.08:      # narrow / unsigned integer types, long runs, > 128 states
             trajs, dtypes, tag = G.narrow_set(rng)
             case.update({'trajs': trajs, 'form': 'loa', 'dtype': dtypes[0], 'dtypes': dtypes, 'alpha': tag})
+        if case['form'] == 'loa' and rng.random() < 0.12 and not case.get('dtypes'):
+            # zero-length trajectories at the front, in the middle, at the end
+            pos = G.empty_positions(rng, len(case['trajs']))
+            case['trajs'] = G.insert_empties(case['trajs'], pos)
+            if lumped:
+                case['macro'] = G.insert_empties(case['macro'], pos)
+            case['alpha'] += '+empty'
         case['ops'] = _ops(rng, LUMPED_READS if lumped else PLAIN_READS, rng.randint(1, 25))
         yield case
     if tier == 'thorough':
@@ -82,6 +89,10 @@ def gen(rng, tier):
                     c['ops'] = [list(o) for o in seq] + [['read', 'trajs'], ['read', 'index_trajs'], ['read', 'states']]
                     yield c
         yield 'EXHAUSTIVE'
+
+
+def gen(rng, tier):
+    return G.with_layouts(rng, _gen0(rng, tier), p_alt=0.15)
 
 
 def corpus():
@@ -111,7 +122,7 @@ def impl(case):
     import numpy as np
     import msmhelper as mh
     from implutil import build, canon
-    arg = build(case['form'], case['trajs'], case.get('dtypes') or [case['dtype']])
+    arg = build(case['form'], case['trajs'], case.get('dtypes') or [case['dtype']], case.get('layout'))
     if case['lumped']:
         marg = build(case['form'], case['macro'], ['int64'])
         obj = mh.LumpedStateTraj(marg, arg)
@@ -295,6 +306,6 @@ def nontrivial(case, ibc):
 
 def describe(case, ibc):
     r = next(iter(ibc.values()))
-    return ['class:' + ('Lumped' if case['lumped'] else 'StateTraj'), 'form:' + case['form'], 'dtype:' + case['dtype'],
+    return ['class:' + ('Lumped' if case['lumped'] else 'StateTraj'), 'form:' + case['form'] + ('/' + case['layout'] if case.get('layout') else ''), 'dtype:' + case['dtype'],
             'alphabet:' + case['alpha'], 'ops:%d' % (len(case['ops']) // 5 * 5),
             'outcome:' + ('err-' + r['err'] if 'err' in r else 'ok')]
